@@ -787,6 +787,18 @@ fn emit_case(i: usize, sources: &[PathBuf]) -> Vec<S> {
     let (plain_status, plain_bytes) = status_of(plain);
 
     let ir_dir = scratch.path().join("build");
+    // every fourth case: the build directory is not fresh — another source was built into it (with IR) before
+    let reused = i >= DIRECTED && i % 4 == 3 && sources.len() > 1;
+    if reused {
+        let other = sources[(i - DIRECTED + 7) % sources.len()].clone();
+        let other = if other == source_path { sources[(i - DIRECTED + 8) % sources.len()].clone() } else { other };
+        let _ = std::panic::catch_unwind(|| {
+            let source = fontc::Input::new(&other)?.create_source()?;
+            let options = fontc::Options { flags, ir_dir: Some(ir_dir.clone()), ..Default::default() };
+            fontc::verif_generate_font_contexts(source, &options).map(|_| ())
+        });
+    }
+    fields.push(S::k1("reused_build_dir", S::bool(reused)));
     let emit = std::panic::catch_unwind(|| {
         let source = fontc::Input::new(&source_path)?.create_source()?;
         let options = fontc::Options { flags, ir_dir: Some(ir_dir.clone()), ..Default::default() };
